@@ -244,3 +244,29 @@ def eval_under_flag(e, flag: str, val: bool, rd=None, depth: int = 0):
             return None
         return a + b if isinstance(e.op, _a.Add) else a - b
     return None
+
+
+_FLIP_OP = {"lt": "gt", "gt": "lt", "le": "ge", "ge": "le", "eq": "eq", "ne": "ne"}
+_OP_NAME = {ast.Lt: "lt", ast.Gt: "gt", ast.LtE: "le", ast.GtE: "ge", ast.Eq: "eq", ast.NotEq: "ne"}
+
+
+def cmp_sides(node):
+    """(op, left, right) of `a OP b` or `a.OP(b)` with op in lt/le/gt/ge/eq/ne, else None."""
+    if isinstance(node, ast.Compare) and len(node.ops) == 1 and type(node.ops[0]) in _OP_NAME:
+        return _OP_NAME[type(node.ops[0])], node.left, node.comparators[0]
+    if isinstance(node, ast.Call) and isinstance(node.func, ast.Attribute) and node.func.attr in _FLIP_OP and len(node.args) == 1:
+        return node.func.attr, node.func.value, node.args[0]
+    return None
+
+
+def oriented(node, is_left):
+    """(op, a, b) of a comparison, oriented so that is_left(a) holds (operator flipped when the operands are swapped)."""
+    cs = cmp_sides(node)
+    if cs is None:
+        return None
+    op, a, b = cs
+    if is_left(a):
+        return op, a, b
+    if is_left(b):
+        return _FLIP_OP[op], b, a
+    return None
